@@ -129,6 +129,12 @@ func (s *Sim) setupSMFs() {
 		if i == 3 { // a peer behind a port translator: its requests do not come from :8805
 			m.Src = udpAddr(ip + ":31000")
 		}
+		if i == 1 && s.cfg.CoLoc {
+			// two peers behind one address translator: this one's requests come from the
+			// first peer's IP address, from another port (its Node ID and the address its
+			// reports go to stay its own)
+			m.Src = udpAddr("10.1.0.1:40001")
+		}
 		for j := 0; j < s.cfg.NSlots; j++ {
 			m.Slots = append(m.Slots, &Slot{SMF: i, Idx: j})
 		}
